@@ -30,6 +30,15 @@ CHECKS = {
  "C10": dict(level="exploration", engine="E1+E2", technique="property testing over seeded long stationary workloads with a metamorphic bound: high-water mark bounded by measured live + dirty pages (independent parser after every commit)",
    text="Seeded long workloads (fixed-size overwrite, variable-size overwrite/delete, bucket create/delete cycles; with reopen, rollbacks, pinned reader) are run for hundreds to thousands of transactions; after every commit the independent parser measures live pages, dirty pages and the high-water mark; the high-water mark must stay within a bound relative to measured live and dirty pages for every prefix of the run, a pinned reader must keep seeing its snapshot, and growth must stop once it closes.",
    note="Bounds calibrated on the unchanged tree (plateau ~1.1-1.6x live; a free list that never releases exceeds the bound within ~100 transactions).", ref="4/C10"),
+ "C12": dict(level="fault_enumeration", engine="E1+E2", technique="fault enumeration: every single-byte damage at every offset of either header page (several byte values; all 255 on defined bytes in the thorough tier), zeroing, multi-byte overwrites and torn tails, after every commit count 0..N; oracle = dump equals the state of the intact header",
+   text="For files after 0..N commits of generated histories every enumerated damage is applied to the newest or the older header page of a copy; opening must succeed and the full dump must equal the state recorded by the intact header whenever a byte the format defines changed (either state otherwise). Single faults are enumerated exhaustively for the offsets and values listed in the evidence.",
+   note="Other header and all data pages intact; single-process open.", ref="4/C12"),
+ "C15": dict(level="exploration", engine="E1+E2", technique="differential testing against golden files written by the pinned tree (4 page sizes x current/legacy header) with generated continuation histories; refusal + unchanged bytes for every mismatching page size",
+   text="Golden files produced by the pinned code are opened by the current code: dump must equal the recorded dump, the independent parser (pinned layout) must accept them, generated further transactions must commit and match the model, and opening with any other page size must be refused without touching the file.",
+   note="Legacy-header files are synthesised from the pinned OldMeta layout.", ref="4/C15"),
+ "C16": dict(level="exploration", engine="E1+E2", technique="metamorphic property testing: the same generated history replayed under the product of page size x initial pages x strict x populate must match one reference model; growth runs across >= 3 extension steps; odd builder values must work or be refused cleanly",
+   text="Each generated history is replayed under several configurations rotating through the whole option product; return values and dumps must equal the model under every configuration, strict mode must never reject a valid commit, the independent parser must accept every file at its configured page size, 20-30 MiB growth runs must stay correct, and page sizes that are not a multiple of 8 must be refused or work.",
+   note="1 MiB x 1000-page configurations only in the thorough tier (on disk).", ref="4/C16"),
 }
 
 NOT_BUILT_REASON = "check not built yet in this session (design in DESIGN.md section 4); not claimed until it exists and is silent on the unchanged tree"
